@@ -80,6 +80,9 @@ type tcSystem struct {
 	opAt   [][]*sym.Term
 }
 
+// tcFixedKinds, when set, pins the kind of thread i (used for a cheap three-thread query).
+var tcFixedKinds []int
+
 func buildTC(N, M int, prog map[[2]int][]int, kinds []int, rendezvous bool) *tcSystem {
 	c := sym.NewCtx()
 	t := &tcSystem{c: c, N: N, M: M, prog: prog, kinds: kinds}
@@ -102,6 +105,9 @@ func buildTC(N, M int, prog map[[2]int][]int, kinds []int, rendezvous bool) *tcS
 		okKind := c.F
 		for _, kk := range kinds {
 			okKind = c.Or(okKind, c.Eq(k, bv(2, kk)))
+		}
+		if i < len(tcFixedKinds) {
+			okKind = c.Eq(k, bv(2, tcFixedKinds[i]))
 		}
 		t.assume = append(t.assume, okKind, c.Ule(bv(4, 1), co), c.Ule(co, t.max))
 	}
@@ -384,7 +390,14 @@ func (cr *checkRun) runTC(which string, N, M int) {
 		t := buildTC(N, M, prog, kinds, rendezvous)
 		goal, extra := mk(t)
 		q0 := time.Now()
-		r, desc := t.solve(tcQuery{name: name, goal: goal, expect: expect, extra: extra}, cr.solver, 20*time.Minute, &st)
+		sk := cr.solver
+		if v := os.Getenv("VERIF_TC_SOLVER"); v != "" {
+			sk = v
+		}
+		if os.Getenv("VERIF_TC_ONLY") != "" && os.Getenv("VERIF_TC_ONLY") != name {
+			return
+		}
+		r, desc := t.solve(tcQuery{name: name, goal: goal, expect: expect, extra: extra}, sk, 20*time.Minute, &st)
 		ms := float64(time.Since(q0).Microseconds()) / 1000
 		results = append(results, tcResult{Query: name, N: N, M: M, Steps: t.K, Expect: expect.String(), Answer: r.String(), MS: ms, Schedule: desc})
 		rep.Steps += int64(t.K)
@@ -417,6 +430,21 @@ func (cr *checkRun) runTC(which string, N, M int) {
 			r = c.Or(r, x)
 		}
 		return r
+	}
+	if which == "C06" && N == 2 {
+		// one extra composition of three threads with pinned kinds: a running task, a
+		// skipped task and a third task (a skipped task must not disturb the accounting)
+		tcFixedKinds = []int{0, 1, 0}
+		N = 3
+		run("overuse-normal-skipped-normal", false, smt.Unsat, func(t *tcSystem) (*sym.Term, []*sym.Term) {
+			var bad []*sym.Term
+			for k := 0; k <= t.K; k++ {
+				bad = append(bad, t.c.Ult(t.c.Zext(t.max, 6), t.load(k)))
+			}
+			return or(t.c, bad), nil
+		})
+		tcFixedKinds = nil
+		N = 2
 	}
 	if which == "C06" {
 		run("overuse", false, smt.Unsat, func(t *tcSystem) (*sym.Term, []*sym.Term) {
@@ -484,6 +512,14 @@ func (cr *checkRun) runTC(which string, N, M int) {
 			return or(t.c, w), nil
 		})
 	}
+	// unbounded-steps variant, also for more threads than the composition can unroll
+	indN := cr.check.TCInductN
+	if cr.tier == "thorough" && cr.check.TCInductNThorough > 0 {
+		indN = cr.check.TCInductNThorough
+	}
+	for n := 2; n <= indN; n++ {
+		cr.runTCInduction(which, n, M, prog, []int{0, 1, 2}, &rep, &st)
+	}
 	rep.Queries = st.Queries
 	rep.Sat, rep.Unsat, rep.Unknown = st.SatN, st.UnsatN, st.UnknownN
 	rep.SolverS = float64(st.SolverNS) / 1e9
@@ -532,4 +568,256 @@ func (cr *checkRun) keepText(name, text string) string {
 	p := dir + "/" + name
 	os.WriteFile(p, []byte(text), 0644)
 	return p
+}
+
+// ---------------------------------------------------------------- inductive variant
+//
+// The bounded composition above needs N x (thread length) steps and stops scaling at
+// N = 3 for the deadlock query. The inductive variant has no step bound: the state
+// (program counters, kinds, core counts, max, tokens, lock holder) is arbitrary but
+// satisfies an invariant derived mechanically from the extracted thread programs:
+//
+//   Inv:  tokens = Σ_i (#S executed by thread i − #R executed by thread i)   (from pc_i)
+//         tokens <= max
+//         holder = i+1  <=>  pc_i lies after an L and not after the matching U
+//
+// and the solver is asked for (init) Inv holds initially, (step) Inv is preserved by every
+// enabled move of every thread, (safe) Inv => Σ cores of threads between B and E <= max,
+// (live) Inv ∧ not all finished => some thread is enabled, (live-rdv) the same when E
+// needs every command to have begun and the commands fit into the slots together.
+// If (step) fails the invariant is too weak for this code (e.g. non-blocking operations):
+// that is reported as "induction not applicable", never as a violation; a sat answer to
+// (safe) / (live) is a state that may be unreachable, so it is reported as inconclusive —
+// violations come only from the bounded composition, which replays a real schedule.
+
+type indState struct {
+	pc     []*sym.Term
+	tok    *sym.Term
+	holder *sym.Term
+}
+
+func (cr *checkRun) runTCInduction(which string, N, M int, prog map[[2]int][]int, kinds []int, rep *harnessReport, st *smt.Stats) {
+	c := sym.NewCtx()
+	bv := func(w, v int) *sym.Term { return c.BV(w, uint64(v)) }
+	const PW = 6
+	max := c.Var("max", 4)
+	var assume []*sym.Term
+	assume = append(assume, c.Ule(bv(4, 1), max), c.Ule(max, bv(4, M)))
+	kind := make([]*sym.Term, N)
+	cores := make([]*sym.Term, N)
+	for i := 0; i < N; i++ {
+		kind[i] = c.Var(fmt.Sprintf("kind%d", i), 2)
+		cores[i] = c.Var(fmt.Sprintf("cores%d", i), 4)
+		ok := c.F
+		for _, k := range kinds {
+			ok = c.Or(ok, c.Eq(kind[i], bv(2, k)))
+		}
+		assume = append(assume, ok, c.Ule(bv(4, 1), cores[i]), c.Ule(cores[i], max))
+	}
+	// table lookups derived from the thread programs
+	sel := func(i int, key [2]int) *sym.Term {
+		return c.And(c.Eq(kind[i], bv(2, key[0])), c.Eq(cores[i], bv(4, key[1])))
+	}
+	// per (program, pc): op, #S before pc, #R before pc, inLock, running, began, valid pc
+	type row struct{ op, dep, rem, inLock, running, began int }
+	table := map[[2]int][]row{}
+	for key, list := range prog {
+		hasB := false
+		for _, o := range list {
+			if o == opB {
+				hasB = true
+			}
+		}
+		rows := make([]row, len(list)+1)
+		dep, rem, inLock, running := 0, 0, 0, 0
+		began := 0
+		if !hasB {
+			began = 1
+		}
+		for p := 0; p <= len(list); p++ {
+			op := opEND
+			if p < len(list) {
+				op = list[p]
+			}
+			rows[p] = row{op, dep, rem, inLock, running, began}
+			switch op {
+			case opS:
+				dep++
+			case opR:
+				rem++
+			case opL:
+				inLock = 1
+			case opU:
+				inLock = 0
+			case opB:
+				running, began = 1, 1
+			case opE:
+				running = 0
+			}
+		}
+		table[key] = rows
+	}
+	look := func(i int, pc *sym.Term, f func(r row) int, w int) *sym.Term {
+		res := bv(w, 0)
+		for key, rows := range table {
+			inner := bv(w, 0)
+			for p := len(rows) - 1; p >= 0; p-- {
+				inner = c.Ite(c.Eq(pc, bv(PW, p)), bv(w, f(rows[p])), inner)
+			}
+			res = c.Ite(sel(i, key), inner, res)
+		}
+		return res
+	}
+	validPC := func(i int, pc *sym.Term) *sym.Term {
+		res := c.F
+		for key, rows := range table {
+			res = c.Or(res, c.And(sel(i, key), c.Ule(pc, bv(PW, len(rows)-1))))
+		}
+		return res
+	}
+	hasTry := false
+	for _, list := range prog {
+		for _, o := range list {
+			if o == opTR || o == opTS {
+				hasTry = true
+			}
+		}
+	}
+	inv := func(s indState) *sym.Term {
+		r := c.Ule(s.tok, max)
+		sum := bv(6, 0)
+		for i := 0; i < N; i++ {
+			r = c.And(r, validPC(i, s.pc[i]))
+			d := look(i, s.pc[i], func(x row) int { return x.dep }, 6)
+			m := look(i, s.pc[i], func(x row) int { return x.rem }, 6)
+			sum = c.Add(sum, c.Sub(d, m))
+			il := c.Eq(look(i, s.pc[i], func(x row) int { return x.inLock }, 1), bv(1, 1))
+			r = c.And(r, c.Eq(il, c.Eq(s.holder, bv(3, i+1))))
+		}
+		r = c.And(r, c.Eq(c.Zext(s.tok, 6), sum))
+		r = c.And(r, c.Ule(s.holder, bv(3, N)))
+		return r
+	}
+	opOf := func(i int, s indState) *sym.Term { return look(i, s.pc[i], func(x row) int { return x.op }, 4) }
+	enabled := func(i int, s indState, rendezvous bool) *sym.Term {
+		op := opOf(i, s)
+		is := func(o int) *sym.Term { return c.Eq(op, bv(4, o)) }
+		e := c.Or(is(opU), is(opB), is(opD), is(opTR), is(opTS))
+		e = c.Or(e, c.And(is(opL), c.Eq(s.holder, bv(3, 0))))
+		e = c.Or(e, c.And(is(opS), c.Ult(s.tok, max)))
+		e = c.Or(e, c.And(is(opR), c.Ult(bv(4, 0), s.tok)))
+		if rendezvous {
+			all := c.T
+			for j := 0; j < N; j++ {
+				all = c.And(all, c.Eq(look(j, s.pc[j], func(x row) int { return x.began }, 1), bv(1, 1)))
+			}
+			e = c.Or(e, c.And(is(opE), all))
+		} else {
+			e = c.Or(e, is(opE))
+		}
+		return e
+	}
+	fresh := func(tag string) indState {
+		s := indState{tok: c.Var("tok"+tag, 4), holder: c.Var("holder"+tag, 3)}
+		for i := 0; i < N; i++ {
+			s.pc = append(s.pc, c.Var(fmt.Sprintf("pc%d%s", i, tag), PW))
+		}
+		return s
+	}
+	s0 := fresh("")
+	type q struct {
+		name   string
+		goal   *sym.Term
+		needed bool
+	}
+	var qs []q
+	// init
+	init := indState{tok: bv(4, 0), holder: bv(3, 0)}
+	for i := 0; i < N; i++ {
+		init.pc = append(init.pc, bv(PW, 0))
+	}
+	qs = append(qs, q{"induction.init", c.Not(inv(init)), true})
+	// step: some thread i moves
+	stepBad := c.F
+	for i := 0; i < N; i++ {
+		op := opOf(i, s0)
+		is := func(o int) *sym.Term { return c.Eq(op, bv(4, o)) }
+		n := indState{tok: s0.tok, holder: s0.holder}
+		n.pc = append([]*sym.Term(nil), s0.pc...)
+		n.pc[i] = c.Add(s0.pc[i], bv(PW, 1))
+		n.tok = c.Ite(is(opS), c.Add(s0.tok, bv(4, 1)), n.tok)
+		n.tok = c.Ite(is(opR), c.Sub(s0.tok, bv(4, 1)), n.tok)
+		n.tok = c.Ite(c.And(is(opTR), c.Ult(bv(4, 0), s0.tok)), c.Sub(s0.tok, bv(4, 1)), n.tok)
+		n.tok = c.Ite(c.And(is(opTS), c.Ult(s0.tok, max)), c.Add(s0.tok, bv(4, 1)), n.tok)
+		n.holder = c.Ite(is(opL), bv(3, i+1), n.holder)
+		n.holder = c.Ite(is(opU), bv(3, 0), n.holder)
+		stepBad = c.Or(stepBad, c.And(enabled(i, s0, false), c.Not(inv(n))))
+	}
+	qs = append(qs, q{"induction.step", c.And(inv(s0), stepBad), true})
+	allFin := c.T
+	for i := 0; i < N; i++ {
+		allFin = c.And(allFin, c.Eq(opOf(i, s0), bv(4, opEND)))
+	}
+	if which == "C06" {
+		load := bv(6, 0)
+		for i := 0; i < N; i++ {
+			run := c.Eq(look(i, s0.pc[i], func(x row) int { return x.running }, 1), bv(1, 1))
+			load = c.Add(load, c.Ite(run, c.Zext(cores[i], 6), bv(6, 0)))
+		}
+		qs = append(qs, q{"induction.no-overuse", c.And(inv(s0), c.Ult(c.Zext(max, 6), load)), false})
+	} else {
+		any := c.F
+		anyR := c.F
+		for i := 0; i < N; i++ {
+			any = c.Or(any, enabled(i, s0, false))
+			anyR = c.Or(anyR, enabled(i, s0, true))
+		}
+		qs = append(qs, q{"induction.no-deadlock", c.And(inv(s0), c.Not(allFin), c.Not(any)), false})
+		sum := bv(6, 0)
+		for i := 0; i < N; i++ {
+			hasCmd := c.F
+			for key, list := range prog {
+				for _, o := range list {
+					if o == opB {
+						hasCmd = c.Or(hasCmd, sel(i, key))
+						break
+					}
+				}
+			}
+			sum = c.Add(sum, c.Ite(hasCmd, c.Zext(cores[i], 6), bv(6, 0)))
+		}
+		qs = append(qs, q{"induction.work-conservation", c.And(inv(s0), c.Ule(sum, c.Zext(max, 6)), c.Not(allFin), c.Not(anyR)), false})
+	}
+	usable := !hasTry
+	for _, qq := range qs {
+		s, err := smt.Start(cr.solver, 10*time.Minute, st)
+		if err != nil {
+			cr.problems = append(cr.problems, err.Error())
+			return
+		}
+		for _, a := range assume {
+			s.Assert(a)
+		}
+		s.Assert(qq.goal)
+		t0 := time.Now()
+		r := s.Check()
+		s.Close()
+		ms := float64(time.Since(t0).Microseconds()) / 1000
+		rep.Samples = append(rep.Samples, map[string]interface{}{"query": qq.name, "threads": N, "max_slots_upto": M, "steps": "unbounded (one inductive step)", "expected": "unsat", "answer": r.String(), "ms": ms})
+		if cr.verbose {
+			fmt.Fprintf(os.Stderr, "tc %s N=%d M<=%d: %s %.0f ms\n", qq.name, N, M, r, ms)
+		}
+		switch {
+		case r == smt.Unsat && usable:
+			rep.Discharged[which+"."+qq.name]++
+		case qq.needed && r != smt.Unsat:
+			usable = false
+			rep.Samples = append(rep.Samples, map[string]interface{}{"note": "the mechanically derived invariant is not inductive for these thread programs: the inductive variant does not apply (the bounded composition stands alone)"})
+		case r == smt.Unknown:
+			cr.problems = append(cr.problems, "tc "+qq.name+": solver unknown")
+		case r == smt.Sat && usable:
+			// a state inside the invariant, possibly unreachable: not a violation by itself
+			cr.problems = append(cr.problems, fmt.Sprintf("tc %s (N=%d): the invariant does not exclude a bad state; only the bounded composition can confirm or refute it", qq.name, N))
+		}
+	}
 }
